@@ -259,8 +259,9 @@ CHECKS = {
                   "invariant) + vm_compute correspondence + source-to-Coq "
                   "translation of read_lines_to_outerboundary, _write, "
                   "make_file, valid_boundary, _skip_to_boundary, skip_lines "
-                  "and read_multi (header loop, part loop) with proved "
-                  "equality to the model"),
+                  "and read_multi (header loop, part loop), the parser's "
+                  "constructor, parse, read_single and read_lines with "
+                  "proved equality to the model"),
     "C09": dict(
         text="Theorems over the model of CachedInput.read/readline (loop "
              "with explicit fuel), for all bodies, declared lengths, block "
